@@ -83,17 +83,23 @@
        (or (= v (enc dflt)) (and (= (arch.Info.ID ai) #xc000003e) (= v #x00050026))
            (exists ((i Int)) (and (<= 0 i) (< i (Slice<seccomp.SyscallGroup>.len gs)) (= v (enc (seccomp.SyscallGroup.Action (groupAt gs i)))))))))
      :pattern ((insnAt p pc)))))
-; kernel filter verifier (DESIGN.md 3.5) for the instruction kinds the compiler can emit: bpf_check_classic + seccomp_check_filter
+; kernel filter verifier (DESIGN.md 3.5) for the instruction kinds the compiler can emit: bpf_check_classic + seccomp_check_filter.
+; insnStrictOK: permitted kind; loads aligned and inside seccomp_data; every jump lands on an instruction of the program.
+(define-fun insnStrictOK ((p Slice<I.bpf.Instruction>) (pc Int)) Bool
+  (let ((i (insnAt p pc)))
+    (or ((_ is I.bpf.Instruction.box.bpf.RetConstant) i)
+        (validLoad i)
+        (and ((_ is I.bpf.Instruction.box.bpf.JumpIf) i)
+             (let ((j (I.bpf.Instruction.unbox.bpf.JumpIf i)))
+               (and (<= 0 (bpf.JumpIf.Cond j)) (<= (bpf.JumpIf.Cond j) 7)
+                    (<= 0 (bpf.JumpIf.SkipTrue j)) (<= (bpf.JumpIf.SkipTrue j) 255)
+                    (<= 0 (bpf.JumpIf.SkipFalse j)) (<= (bpf.JumpIf.SkipFalse j) 255)
+                    (< (+ pc 1 (bpf.JumpIf.SkipTrue j)) (plen p)) (< (+ pc 1 (bpf.JumpIf.SkipFalse j)) (plen p)))))
+        (and ((_ is I.bpf.Instruction.box.bpf.Jump) i)
+             (< (+ pc 1 (w2i32 (bpf.Jump.Skip (I.bpf.Instruction.unbox.bpf.Jump i)))) (plen p))))))
+(define-fun strictClosed ((p Slice<I.bpf.Instruction>)) Bool
+  (forall ((pc Int)) (! (=> (and (<= 0 pc) (< pc (plen p))) (insnStrictOK p pc)) :pattern ((insnAt p pc)))))
 (define-fun kernelAccepts ((p Slice<I.bpf.Instruction>)) Bool
   (and (>= (plen p) 1) (<= (plen p) 4096)
        ((_ is I.bpf.Instruction.box.bpf.RetConstant) (insnAt p (- (plen p) 1)))
-       (forall ((pc Int)) (! (=> (and (<= 0 pc) (< pc (plen p)))
-          (let ((i (insnAt p pc)))
-            (or ((_ is I.bpf.Instruction.box.bpf.RetConstant) i) (validLoad i)
-                (and ((_ is I.bpf.Instruction.box.bpf.JumpIf) i)
-                     (let ((j (I.bpf.Instruction.unbox.bpf.JumpIf i)))
-                       (and (<= 0 (bpf.JumpIf.Cond j)) (<= (bpf.JumpIf.Cond j) 7) (<= 0 (bpf.JumpIf.SkipTrue j)) (<= 0 (bpf.JumpIf.SkipFalse j))
-                            (< (+ pc 1 (bpf.JumpIf.SkipTrue j)) (plen p)) (< (+ pc 1 (bpf.JumpIf.SkipFalse j)) (plen p)))))
-                (and ((_ is I.bpf.Instruction.box.bpf.Jump) i)
-                     (< (+ pc 1 (bv2nat (bpf.Jump.Skip (I.bpf.Instruction.unbox.bpf.Jump i)))) (plen p))))))
-          :pattern ((insnAt p pc))))))
+       (strictClosed p)))
